@@ -231,6 +231,17 @@ def run_reduce(ctx) -> RuleResult:
             continue
         args = value.elts[1].elts
         bound = {tparams[i]: args[i] for i in range(min(len(args), len(tparams)))}
+        for extra_idx in range(len(want), min(len(args), len(tparams))):
+            pname, arg = tparams[extra_idx], args[extra_idx]
+            ok = not (pname == "retain_names" and isinstance(arg, ast.Constant) and arg.value is False)
+            ok = ok and pname in ("retain_coefficients", "retain_names")
+            result.ob(f"__reduce__: extra positional argument {U(arg)} binds to '{pname}'", ok, module.loc(last.orig), "")
+            if not ok:
+                result.add(Finding(
+                    "R-REDUCE", module, "ndpoly.__reduce__", last.node,
+                    f"the trailing positional {U(arg)} of the pickle state binds to parameter '{pname}' of "
+                    f"polynomial_from_attributes: unpickling drops the indeterminates that occur in no term",
+                    construct=f"__reduce__ extra -> {pname}"))
         for pname, attr in want.items():
             arg = bound.get(pname)
             if arg is None:
@@ -418,6 +429,30 @@ def run_header(ctx) -> RuleResult:
                                    "unstructured_to_structured is not reshaped to (-1, len(keys))"))
     if not found:
         raise AnalysisError("loadtxt no longer calls unstructured_to_structured")
+    # the numpoly line is the first header line (loadtxt only inspects line 1)
+    n_header = 0
+    for node in ast.walk(sfunc):
+        if isinstance(node, ast.Assign) and len(node.targets) == 1 and isinstance(node.targets[0], ast.Name) \
+                and node.targets[0].id == "header" and not isinstance(node.value, ast.Name):
+            n_header += 1
+            value = node.value
+            first = None
+            if isinstance(value, ast.BinOp) and isinstance(value.op, ast.Add):
+                cur = value
+                while isinstance(cur, ast.BinOp) and isinstance(cur.op, ast.Add):
+                    cur = cur.left
+                first = cur
+            elif isinstance(value, ast.Call) and isinstance(value.func, ast.Attribute) and value.func.attr == "join" and value.args \
+                    and isinstance(value.args[0], (ast.List, ast.Tuple)) and value.args[0].elts:
+                first = value.args[0].elts[0]
+            elif isinstance(value, ast.JoinedStr) and value.values and isinstance(value.values[0], ast.FormattedValue):
+                first = value.values[0].value
+            ok = first is not None and isinstance(first, ast.Name) and first.id != "header"
+            result.ob("savetxt puts the numpoly line before a user header", ok, smod.loc(node), U(value)[:80])
+            if not ok:
+                result.add(Finding("R-HEADER", smod, "savetxt", node,
+                                   f"the combined header is {U(value)[:80]}: the user's header comes first, but loadtxt "
+                                   f"recognises a numpoly file only by its first line"))
     # writer flattens elements x terms
     ok = False
     for call in calls_in(sfunc):
@@ -431,4 +466,52 @@ def run_header(ctx) -> RuleResult:
                            "savetxt does not flatten the polynomial to (size, terms) before writing",
                            construct="structured_to_unstructured(X.values.ravel())"))
     result.floor = 12
+    return result
+
+
+def run_values(ctx) -> RuleResult:
+    result = RuleResult(
+        "R-VALUES",
+        "ndpoly.values re-wraps the raw buffer (numpy.ndarray(buffer=self.data)) only when self is "
+        "C-contiguous or passes the strides along; otherwise it returns a view - every shape function "
+        "reads its argument through .values",
+    )
+    module = ctx.repo.module("numpoly.baseclass")
+    func = ctx.repo.function(module.name, "ndpoly.values")
+    n = 0
+    for path in ctx.paths(module, func):
+        last = path[-1]
+        if last.kind != "return" or last.node.value is None:
+            continue
+        n += 1
+        value = last.expand(last.node.value)
+        trace = describe_path(path)
+        rewrap = None
+        for call in calls_in(value):
+            if ctx.dotted(module, call.func) == "numpy.ndarray" and kwarg(call, "buffer") is not None:
+                rewrap = call
+        if rewrap is None:
+            ok = ".view(" in U(value) or "numpy.asarray(" in U(value)
+            result.ob(f"values returns a stride-preserving view [{' / '.join(trace)}]", ok, module.loc(last.orig), U(value)[:80])
+            if not ok:
+                result.add(Finding("R-VALUES", module, "ndpoly.values", last.node,
+                                   f"values returns {U(value)[:80]}, neither a view nor a re-wrapped buffer"))
+            continue
+        has_strides = kwarg(rewrap, "strides") is not None
+        contiguous = False
+        for node, pol in last.fact_items():
+            text = U(node)
+            if "C_CONTIGUOUS" in text and pol is True:
+                contiguous = True
+        ok = has_strides or contiguous
+        result.ob(f"raw buffer re-wrapped only for C-contiguous self [{' / '.join(trace)}]", ok, module.loc(last.orig), "")
+        if not ok:
+            result.add(Finding(
+                "R-VALUES", module, "ndpoly.values", rewrap,
+                "numpy.ndarray(buffer=self.data) is built without strides on a path that did not establish "
+                "self.flags['C_CONTIGUOUS']: for a transposed / sliced polynomial the storage is read in the "
+                "wrong element order (numpoly.reshape(poly.T, n) misplaces elements)", derivation=trace))
+    if n == 0:
+        raise AnalysisError("ndpoly.values: no return found")
+    result.floor = 1
     return result
